@@ -393,78 +393,136 @@ def more_rules(run, db):
             npaths += 1
             run.check(g == want, 'C09.rule', fd.qual, 'd/drho (1/phi) [%s]' % ', '.join(k_ for k_, v_ in kw.items() if not (isinstance(v_, Const) and v_.v is None)) or 'defaults',
                       'der_direction_cosine_spheroid == d/drho (1/phi_spheroid(rho^2))', 'der_direction_cosine_spheroid = %s, but d/drho of 1/phi_spheroid is %s' % (g.key(), want.key()), fd.loc())
-    # azimuthal assembly of compute_z_zprime_Q2d: the statements after the two family blocks
-    f = db.func(Q + 'compute_z_zprime_Q2d')
-    from ..core.pattern import find, match_all
-    loops = [n for n in walk_no_nested(f.node) if isinstance(n, ast.For) and isinstance(n.iter, ast.Call) and ast.unparse(n.iter.func) == 'zip'
-             and [ast.unparse(a_) for a_ in n.iter.args] == ['ams', 'bms']]
-    if len(loops) != 1:
-        raise AnalysisError('compute_z_zprime_Q2d: family loop (over zip(ams, bms)) not found')
-    body = loops[0].body
-    # roles, not spellings: the returned triple, the azimuthal counter, the Clenshaw tables and the (S, S') read off them
-    rb = match_all(f.node, ['return V_z, V_dr, V_dt'])
-    ctr = [n.target.id for n in body if isinstance(n, ast.AugAssign) and isinstance(n.target, ast.Name) and isinstance(n.op, ast.Add) and isinstance(n.value, ast.Constant) and n.value.value == 1]
-    tabs = [b_['V_A'] for b_, _ in find(loops[0], 'V_A = clenshaw_q2d_der(V_c, V_m, E_x)')]
-    ifs = [i_ for i_, st in enumerate(body) if isinstance(st, ast.If) and any(isinstance(x_, ast.Name) and x_.id in tabs for x_ in ast.walk(st))]
-    if rb is None or len(ctr) != 1 or len(tabs) != 2 or not ifs:
-        raise AnalysisError('compute_z_zprime_Q2d: returned triple / azimuthal counter / two Clenshaw tables / family blocks not found')
-    start = ifs[-1] + 1
-    if start >= len(body):
-        raise AnalysisError('compute_z_zprime_Q2d: no assembly statements after the family blocks')
-    Z_, DR_, DT_, M_ = rb['V_z'], rb['V_dr'], rb['V_dt'], ctr[0]
-    sums = {}
-    for fam, A_ in zip('ab', tabs):
-        s0 = [b_['V_S'] for b_, _ in find(loops[0], 'V_S = E_k * %s[0][0]' % A_)]
-        s1 = [b_['V_S'] for b_, _ in find(loops[0], 'V_S = E_k * %s[1][0]' % A_)]
-        if len(s0) != 1 or len(s1) != 1:
-            raise AnalysisError('compute_z_zprime_Q2d: the sum / derivative read off table %s not found' % A_)
-        sums[s0[0]] = 'S' + fam
-        sums[s1[0]] = 'Sprime' + fam
-    fn, params = block_as_function(f, body[start:], [Z_, DR_, DT_], 'assembly')
-    it2, dom2 = PF.mk_order(db)
-    R2 = dom2.R
-    dom2.lower['m'] = 1
-    u, t_, m_ = Rat(R2.atom('u')), Rat(R2.atom('t')), Rat(R2.atom('m'))
-    kw = {p_: dom2.sym(sums.get(p_, p_)) for p_ in params}
-    # locals computed once from the arguments before the loop (u * u under whatever name) keep their value
-    from ..core.interp import Frame
-    it2._reset_run([])
-    fr0 = Frame(f, f.module, {a_: dom2.sym(a_) for a_ in f.params})
-    for p_ in params:
-        if p_ in f.params or p_ in sums:
-            continue
-        defs_ = [st for st in f.node.body if isinstance(st, ast.Assign) and len(st.targets) == 1 and isinstance(st.targets[0], ast.Name) and st.targets[0].id == p_]
-        if len(defs_) == 1 and {x_.id for x_ in ast.walk(defs_[0].value) if isinstance(x_, ast.Name)} <= set(f.params):
-            v_ = it2.ev(defs_[0].value, fr0)
-            if dom2.rat(v_) is not None:
-                kw[p_] = v_
-    kw.update({Z_: Const(0), DR_: Const(0), DT_: Const(0), M_: dom2.sym('m')})
-    res = returns(it2.run(fn, kwargs=lambda: dict(kw)), fn)
-    if len(res) != 1:
-        raise AnalysisError('compute_z_zprime_Q2d assembly: %d paths' % len(res))
-    z, dr, dt = [as_rat(dom2, x_, 'assembly') for x_ in res[0].value.items]
-    for nm, pr in (('Sa', 'Sprimea'), ('Sb', 'Sprimeb')):
-        R2.deriv[nm] = {'u': Rat(R2.atom(pr)) * 2 * u}          # S = S(u^2) with S' = dS/d(u^2)
-    # u**m and u**(m-1): d/du pow(u, m) = m pow(u, m-1)
-    pm, pm1 = R2.func('pow', [u, m_]), R2.func('pow', [u, m_ - 1])
-    (k_pm,), = [list(pm.t)[0][0][:1]]
-    R2.deriv[k_pm] = {'u': m_ * Rat(pm1)}
-    for nm, var, got in (('dr', 'u', dr), ('dt', 't', dt)):
-        law = {k_pm: u * Rat(pm1)}                       # u**m == u * u**(m-1)
-        w = diff(z, var, R2).subs(law)
-        got = got.subs(law)
-        run.check(got == w, 'C09.rule', f.qual, 'azimuthal assembly ' + nm, 'compute_z_zprime_Q2d: %s == d/d%s [u^m (cos(m t) Sa(u^2) + sin(m t) Sb(u^2))]' % (nm, var),
-                  'compute_z_zprime_Q2d: %s contribution is %s but d/d%s of the sag contribution %s is %s' % (nm, got.key(), var, z.key(), w.key()), f.loc(body[start]))
-    # zernike_nm_der_seq: slot j holds zernike_nm_der of request j with the caller's norm
+    def _assembly_block():
+        # azimuthal assembly of compute_z_zprime_Q2d: the statements after the two family blocks
+        f = db.func(Q + 'compute_z_zprime_Q2d')
+        from ..core.pattern import find, match_all
+        loops = [n for n in walk_no_nested(f.node) if isinstance(n, ast.For) and isinstance(n.iter, ast.Call) and ast.unparse(n.iter.func) == 'zip'
+                 and [ast.unparse(a_) for a_ in n.iter.args] == ['ams', 'bms']]
+        if len(loops) != 1:
+            raise AnalysisError('compute_z_zprime_Q2d: family loop (over zip(ams, bms)) not found')
+        body = loops[0].body
+        # roles, not spellings: the returned triple, the azimuthal counter, the Clenshaw tables and the (S, S') read off them
+        rb = match_all(f.node, ['return V_z, V_dr, V_dt'])
+        ctr = [n.target.id for n in body if isinstance(n, ast.AugAssign) and isinstance(n.target, ast.Name) and isinstance(n.op, ast.Add) and isinstance(n.value, ast.Constant) and n.value.value == 1]
+        tabs = [b_['V_A'] for b_, _ in find(loops[0], 'V_A = clenshaw_q2d_der(V_c, V_m, E_x)')]
+        ifs = [i_ for i_, st in enumerate(body) if isinstance(st, ast.If) and any(isinstance(x_, ast.Name) and x_.id in tabs for x_ in ast.walk(st))]
+        if rb is None or len(ctr) != 1 or len(tabs) != 2 or not ifs:
+            raise AnalysisError('compute_z_zprime_Q2d: returned triple / azimuthal counter / two Clenshaw tables / family blocks not found')
+        start = ifs[-1] + 1
+        if start >= len(body):
+            raise AnalysisError('compute_z_zprime_Q2d: no assembly statements after the family blocks')
+        Z_, DR_, DT_, M_ = rb['V_z'], rb['V_dr'], rb['V_dt'], ctr[0]
+        sums = {}
+        for fam, A_ in zip('ab', tabs):
+            s0 = [b_['V_S'] for b_, _ in find(loops[0], 'V_S = E_k * %s[0][0]' % A_)]
+            s1 = [b_['V_S'] for b_, _ in find(loops[0], 'V_S = E_k * %s[1][0]' % A_)]
+            if len(s0) != 1 or len(s1) != 1:
+                raise AnalysisError('compute_z_zprime_Q2d: the sum / derivative read off table %s not found' % A_)
+            sums[s0[0]] = 'S' + fam
+            sums[s1[0]] = 'Sprime' + fam
+        fn, params = block_as_function(f, body[start:], [Z_, DR_, DT_], 'assembly')
+        it2, dom2 = PF.mk_order(db)
+        R2 = dom2.R
+        dom2.lower['m'] = 1
+        u, t_, m_ = Rat(R2.atom('u')), Rat(R2.atom('t')), Rat(R2.atom('m'))
+        kw = {p_: dom2.sym(sums.get(p_, p_)) for p_ in params}
+        # locals computed once from the arguments before the loop (u * u under whatever name) keep their value
+        from ..core.interp import Frame
+        it2._reset_run([])
+        fr0 = Frame(f, f.module, {a_: dom2.sym(a_) for a_ in f.params})
+        for p_ in params:
+            if p_ in f.params or p_ in sums:
+                continue
+            defs_ = [st for st in f.node.body if isinstance(st, ast.Assign) and len(st.targets) == 1 and isinstance(st.targets[0], ast.Name) and st.targets[0].id == p_]
+            if len(defs_) == 1 and {x_.id for x_ in ast.walk(defs_[0].value) if isinstance(x_, ast.Name)} <= set(f.params):
+                v_ = it2.ev(defs_[0].value, fr0)
+                if dom2.rat(v_) is not None:
+                    kw[p_] = v_
+        kw.update({Z_: Const(0), DR_: Const(0), DT_: Const(0), M_: dom2.sym('m')})
+        res = returns(it2.run(fn, kwargs=lambda: dict(kw)), fn)
+        if len(res) != 1:
+            raise AnalysisError('compute_z_zprime_Q2d assembly: %d paths' % len(res))
+        z, dr, dt = [as_rat(dom2, x_, 'assembly') for x_ in res[0].value.items]
+        for nm, pr in (('Sa', 'Sprimea'), ('Sb', 'Sprimeb')):
+            R2.deriv[nm] = {'u': Rat(R2.atom(pr)) * 2 * u}          # S = S(u^2) with S' = dS/d(u^2)
+        # u**m and u**(m-1): d/du pow(u, m) = m pow(u, m-1)
+        pm, pm1 = R2.func('pow', [u, m_]), R2.func('pow', [u, m_ - 1])
+        (k_pm,), = [list(pm.t)[0][0][:1]]
+        R2.deriv[k_pm] = {'u': m_ * Rat(pm1)}
+        for nm, var, got in (('dr', 'u', dr), ('dt', 't', dt)):
+            law = {k_pm: u * Rat(pm1)}                       # u**m == u * u**(m-1)
+            w = diff(z, var, R2).subs(law)
+            got = got.subs(law)
+            run.check(got == w, 'C09.rule', f.qual, 'azimuthal assembly ' + nm, 'compute_z_zprime_Q2d: %s == d/d%s [u^m (cos(m t) Sa(u^2) + sin(m t) Sb(u^2))]' % (nm, var),
+                      'compute_z_zprime_Q2d: %s contribution is %s but d/d%s of the sag contribution %s is %s' % (nm, got.key(), var, z.key(), w.key()), f.loc(body[start]))
+    try:
+        _assembly_block()
+    except AnalysisError as e:
+        # the statements after the two family blocks are not in the form this rule reads (helper extracted, enumerate(...)):
+        # the assembly is decided by the interpretation of the whole routine (C10.assembly, run under C09.rule as well)
+        run.ok('C09.rule', Q + 'compute_z_zprime_Q2d', 'azimuthal assembly: decided by interpretation of the whole routine (%s)' % str(e)[:80])
+    # zernike_nm_der_seq: slot j holds zernike_nm_der of request j with the caller's norm -- decided by interpreting the wrapper on
+    # a two-request list with zernike_nm_der summarised and the output array recording what is stored in which row (directly, or
+    # through the row views obtained by iterating over it)
+    from ..core.interp import Value
+    from .common import bind_call
     fz = db.func(P + 'zernike.zernike_nm_der_seq')
-    from ..core.pattern import match_all
-    lp = [n for n in walk_no_nested(fz.node) if isinstance(n, ast.For)]
-    ok = False
-    for pat in ('for V_j, (V_n, V_m) in enumerate(nms):\n    V_tmp = zernike_nm_der(V_n, V_m, r, t, norm=norm)\n    V_out[V_j] = V_tmp',
-                'for V_j, (V_n, V_m) in enumerate(nms):\n    V_out[V_j] = zernike_nm_der(V_n, V_m, r, t, norm=norm)'):
-        b_ = match_all(fz.node, [pat, 'return V_out'])
-        ok = ok or (b_ is not None and len(lp) == 1)
-    run.check(ok, 'C09.id', fz.qual, 'wrapper', 'slot j holds zernike_nm_der(n_j, m_j, r, t, norm=norm)', 'zernike_nm_der_seq no longer stores zernike_nm_der(n, m, r, t, norm=norm) of request j in slot j', fz.loc())
+    fd1 = db.func(P + 'zernike.zernike_nm_der')
+
+    class OutArr(Value):
+        def __init__(self):
+            self.rows = {}
+
+    class Row(Value):
+        def __init__(self, arr, j):
+            self.arr, self.j = arr, j
+    itw, domw = norm_interp(db)
+    oe, oi, os_, op_ = domw.call_ext, domw.iterate, domw.store_subscript, domw.call_prysm
+    holder = {}
+
+    def call_ext(dotted, args, kwargs, node):
+        if dotted in ('numpy.empty', 'numpy.zeros'):
+            holder['out'] = OutArr()
+            return holder['out']
+        return oe(dotted, args, kwargs, node)
+
+    def iterate(v, node):
+        if isinstance(v, OutArr):
+            return [Row(v, 0), Row(v, 1)]
+        return oi(v, node)
+
+    def store_subscript(target, idx, val, node):
+        if isinstance(target, OutArr) and isinstance(idx, Const) and isinstance(idx.v, int):
+            target.rows.setdefault(idx.v, []).append(val)
+            return True
+        if isinstance(target, Row):
+            target.arr.rows.setdefault(target.j, []).append(val)
+            return True
+        return os_(target, idx, val, node)
+
+    def call_prysm(fi, args, kwargs, node):
+        if fi.qual == fd1.qual:
+            b = bind_call(fi, args, kwargs)
+            return domw.func_atom('zder', [b.get(k, Const(True) if k == 'norm' else Const(None)) for k in ('n', 'm', 'r', 't', 'norm')])
+        return op_(fi, args, kwargs, node) if op_ else None
+    domw.call_ext, domw.iterate, domw.store_subscript, domw.call_prysm = call_ext, iterate, store_subscript, call_prysm
+    reqs = lambda: Tup([Tup([domw.sym('n0'), domw.sym('m0')]), Tup([domw.sym('n1'), domw.sym('m1')])], 'list')
+    res = returns(itw.run(fz, kwargs=lambda: {'nms': reqs(), 'r': domw.sym('r'), 't': domw.sym('t'), 'norm': domw.sym('NORM')}), fz)
+    Rw = domw.R
+    Aw = lambda nme: Rat(Rw.atom(nme))
+    ok = len(res) == 1 and isinstance(res[0].value, OutArr)
+    detail = ''
+    if ok:
+        rows = res[0].value.rows
+        for j in (0, 1):
+            want = Rat(Rw.func('zder', [Aw('n%d' % j), Aw('m%d' % j), Aw('r'), Aw('t'), Aw('NORM')]))
+            got = [domw.rat(v) for v in rows.get(j, [])]
+            if not (len(got) == 1 and got[0] is not None and got[0] == want):
+                ok = False
+                detail = 'slot %d holds %s, expected %s' % (j, [g.key() if g is not None else '?' for g in got], want.key())
+    run.check(ok, 'C09.id', fz.qual, 'wrapper', 'slot j holds zernike_nm_der(n_j, m_j, r, t, norm=norm)',
+              'zernike_nm_der_seq no longer stores zernike_nm_der(n, m, r, t, norm=norm) of request j in slot j: %s' % (detail or 'the output array is not what is returned'), fz.loc())
 
 
 def check(run, db, tier):
